@@ -35,6 +35,22 @@ impl P {
     }
     /// The `Platform` value, if this CPU (or the interpreter configuration) can execute it.
     pub fn platform(self) -> Option<Platform> {
+        #[cfg(any(target_arch = "x86", target_arch = "x86_64"))]
+        {
+            return self.platform_x86();
+        }
+        #[cfg(not(any(target_arch = "x86", target_arch = "x86_64")))]
+        {
+            // foreign targets (interpreted by Miri): only the portable implementation exists
+            match self {
+                P::Portable => Some(Platform::Portable),
+                _ => None,
+            }
+        }
+    }
+
+    #[cfg(any(target_arch = "x86", target_arch = "x86_64"))]
+    fn platform_x86(self) -> Option<Platform> {
         match self {
             P::Native => None,
             P::Portable => Some(Platform::Portable),
@@ -58,6 +74,7 @@ impl P {
             P::Avx512 => None,
         }
     }
+
     pub fn available(self) -> bool {
         self == P::Native || self.platform().is_some()
     }
